@@ -47,7 +47,7 @@ func cmdPlug(args []string) {
 	mux.HandleFunc("/ok", func(rw http.ResponseWriter, r *http.Request) { rw.WriteHeader(200) })
 	mux.HandleFunc("/err", func(rw http.ResponseWriter, r *http.Request) { rw.WriteHeader(500) })
 	mux.HandleFunc("/nocontent", func(rw http.ResponseWriter, r *http.Request) { rw.WriteHeader(204) })
-	mux.HandleFunc("/slow", func(rw http.ResponseWriter, r *http.Request) { time.Sleep(300 * time.Millisecond); rw.WriteHeader(200) })
+	mux.HandleFunc("/slow", func(rw http.ResponseWriter, r *http.Request) { time.Sleep(2500 * time.Millisecond); rw.WriteHeader(200) })
 	srv := httptest.NewServer(mux)
 	defer srv.Close()
 	// a port nobody listens on
@@ -58,7 +58,7 @@ func cmdPlug(args []string) {
 	dead := l.Addr().String()
 	l.Close()
 
-	wk := httpPlugin.VerifWorker(100 * time.Millisecond)
+	wk := httpPlugin.VerifWorker(1 * time.Second) // generous: a loaded machine must not turn a good receiver into a slow one
 	type rc struct {
 		data string
 		cls  int64 // 0: answers 200; 1: answers, but not 200; 2: no answer can be had
